@@ -33,7 +33,7 @@ CaseRec ==
      asc     |-> [ty \in Types |-> LayoutOut(RTAsc(ty))],
      desc    |-> [ty \in Types |-> LayoutOut(RTDesc(ty))]]
 
-SampleHash(s) == Rank(s.stack) * 31 + SumF([j \in Types |-> s.val[j] * (j + 1)]) + 1
+SampleHash(s) == LET h == Rank(s.stack) * 31 + SumF([j \in Types |-> s.val[j] * (7 * j + 3)]) + 1 IN (h * h) % 1009
 CaseHash == SumF([i \in 1..N |-> (i * 17 + 1) * SumF([s \in DOMAIN profs[i] |-> profs[i][s] * SampleHash(s)])]) + N
 
 Export == \/ ExportMod = 0
